@@ -75,7 +75,21 @@ func report(c *core.Ctx, fam string, corpus *pipe.Corpus) {
 			if len(d.BuildDiags) > 0 {
 				c.Outcome("design-uncompilable")
 				cs["diags"] = d.BuildDiags
-				c.Violation(fmt.Sprintf("C01 uncompilable-design diag=%q family=%s", abstract(stripPos(d.BuildDiags[0])), fam),
+				feat := "family=" + fam
+				if d.Spec != nil {
+					nm := 0
+					for _, svc := range d.Spec.Services {
+						nm += len(svc.Methods)
+					}
+					if nm == 1 {
+						for _, svc := range d.Spec.Services {
+							for _, m := range svc.Methods {
+								feat = "feat=[" + featString(m.Feat) + "]"
+							}
+						}
+					}
+				}
+				c.Violation(fmt.Sprintf("C01 uncompilable-design diag=%q %s", abstract(stripPos(d.BuildDiags[0])), feat),
 					fmt.Sprintf("generated code of design %s does not compile: %s", key, strings.Join(d.BuildDiags, " | ")), cs, nil)
 			}
 		}
@@ -83,6 +97,19 @@ func report(c *core.Ctx, fam string, corpus *pipe.Corpus) {
 	for _, u := range corpus.Unattributed {
 		c.HarnessError("%s: unattributed build output: %s", fam, u)
 	}
+}
+
+func featString(f map[string]string) string {
+	keys := make([]string, 0, len(f))
+	for k := range f {
+		keys = append(keys, k)
+	}
+	sort.Strings(keys)
+	var parts []string
+	for _, k := range keys {
+		parts = append(parts, k+"="+f[k])
+	}
+	return strings.Join(parts, " ")
 }
 
 func first(d []string) string {
